@@ -23,7 +23,7 @@ Cfg == [ own |-> Own, mtu |-> Mtu, attrs |-> [wifi |-> 0],
 
 (* ------------------------------------------------------------ request universe *)
 Rq(op, tos, es, ed, rs, rd, seq) ==
-  [ hv |-> TRUE, tos |-> tos, op |-> op, ed |-> ed, es |-> es, rd |-> rd, rs |-> rs, seq |-> seq, len |-> 32,
+  [ hv |-> TRUE, tos |-> tos, op |-> op, ed |-> ed, es |-> es, rd |-> rd, rs |-> rs, seq |-> seq, len |-> 32, grew |-> "?",
     gen |-> 0, declared |-> 0, descs |-> << >>, ltype |-> 0, off |-> 0 ]
 
 Desc(k, p, s, d) == [kind |-> k, pause |-> p, src |-> s, dst |-> d]
